@@ -323,7 +323,7 @@ def report_divergence(chk: Check, alphabet, h, maxi, family):
     chk.violation(key, what, rep, found_input=genuine)
 
 
-def check_family(chk: Check, alphabet, histories, mode, maxi, family, nproc=1, sample_every=997):
+def check_family(chk: Check, alphabet, histories, mode, maxi, family, nproc=1, sample_every=997, shorter=True):
     impl = run_impl(alphabet, histories, mode, nproc)
     model = run_model(alphabet, histories, mode, maxi, 'H' + family)
     bad = []
@@ -345,6 +345,17 @@ def check_family(chk: Check, alphabet, histories, mode, maxi, family, nproc=1, s
             bad.append(h)
     chk.count('family', family, len(histories))
     # shortest (then first) diverging histories; one diagnosis per distinct key is enough
+    if bad and mode == 'final' and shorter:
+        # every enumerated history has the same length: look for shorter diverging ones first
+        names = list(alphabet)
+        for d in range(1, len(bad[0])):
+            hs = enumerate_pointer(names, d)
+            im = run_impl(alphabet, hs, 'final', 1)['results']
+            mo = run_model(alphabet, hs, 'final', maxi, 'S' + family)
+            small = [h for h, m, r in zip(hs, mo, im) if not (compare_final(m, r) and not text_flags(r['heap']))]
+            if small:
+                bad = small + bad
+                break
     bad.sort(key=len)
     for h in bad[:12]:
         report_divergence(chk, alphabet, h, maxi, family)
